@@ -211,9 +211,9 @@ func cmdCheck(args []string) int {
 	}
 	genS := time.Since(start).Seconds() - loadS
 
-	d := &Discharger{dir: scratch, timeoutS: 60, seed: seed, par: 10}
+	d := &Discharger{dir: scratch, timeoutS: 100, seed: seed, par: 10}
 	if *tier == "thorough" {
-		d.timeoutS = 120
+		d.timeoutS = 200
 	}
 	solveStart := time.Now()
 	d.run(obls)
